@@ -220,6 +220,8 @@ def r3(ctx):
         "send_binary": (lambda run: [Sym("payload", "bytes")], 2, None),
         "ping": (lambda run: [Sym("payload")], 9, None),
         "pong": (lambda run: [Sym("payload")], 10, None),
+        "ping:str": (lambda run: [Sym("payload", "str")], 9, None),
+        "pong:str": (lambda run: [Sym("payload", "str")], 10, None),
         "send_close": (lambda run: [isym(run, "status", 0, 65535), Sym("reason", "bytes")], 8, None),
         "close": (lambda run: [isym(run, "status", 0, 65535), Sym("reason", "bytes")], 8, None),
     }
@@ -227,7 +229,8 @@ def r3(ctx):
     def _op(run):
         return isym(run, "opcode", 0, 15)
 
-    for name, (mkargs, want_op, _) in cases.items():
+    for case, (mkargs, want_op, _) in cases.items():
+        name = case.split(":")[0]
         q = f"_core:WebSocket.{name}"
         ctx.index.func(q, "R-C01-3")
 
@@ -260,8 +263,10 @@ def r3(ctx):
                 if isinstance(data, App) and data.op == "m:encode":
                     enc = data.args[1] if len(data.args) > 1 else C("utf-8")
                     okd = isinstance(enc, C) and enc.v.lower().replace("_", "-") in ("utf-8", "utf8")
+                if o.run.kind_of(data) == "str" and data != C(""):  # "" is ABNF's own normal form of a None payload
+                    okd = False  # a str payload reaches the frame un-encoded: its length and bytes are not its UTF-8 form
                 ok = okc and oko and okf and okd
-                ctx.ob(f"{q}:frame-fields:{len(o.decisions)}:{nframes}", ok,
+                ctx.ob(f"{q}:{case}:frame-fields:{len(o.decisions)}:{nframes}", ok,
                        f"rsv=({f.get('rsv1')},{f.get('rsv2')},{f.get('rsv3')}) mask={f.get('mask_value')} fin={f.get('fin')} "
                        f"opcode={opv!r} data={data!r}" + ("" if ok else "  -- client frames need rsv=0, mask=1, fin=1, the requested opcode, UTF-8 text"),
                        e.loc, {"path": path_text(o)})
@@ -338,10 +343,14 @@ def r4(ctx):
     stubs["_abnf:ABNF.mask"] = mask_stub
     stubs["_core:WebSocket._send"] = lambda I, run, a, k, nd: (run.effect("_send", a[1:], k, node=nd), _len_of(I, run, a[1], nd))[1]
     Ie = Interp(ctx.index, Config(stubs=stubs))
-    for variant in ("default", "custom"):
-        def body(run, variant=variant):
+    stubs_t = dict(stubs)
+    stubs_t["_logging:isEnabledForTrace"] = lambda I, run, a, k, n: TRUE
+    stubs_t["_logging:trace"] = lambda I, run, a, k, n: NONE
+    It = Interp(ctx.index, Config(stubs=stubs_t))
+    for variant, Ie in (("default", Ie), ("custom", Ie), ("default+trace", It), ("custom+trace", It)):
+        def body(run, variant=variant, Ie=Ie):
             kw = {}
-            if variant == "custom":
+            if variant.startswith("custom"):
                 kw["get_mask_key"] = Sym("custom_key", "func")
             ws = mk_websocket(Ie, run, **kw)
             return Ie.call(run, Ie.getattr(run, ws, "send", None), [Sym("payload", "bytes"), C(2)], {}, None)
@@ -349,13 +358,13 @@ def r4(ctx):
             if o.kind == "cutoff" or (o.kind == "raise" and o.exc_class == "builtins.ValueError"):
                 continue  # refusal of an over-long payload happens before any key is drawn
             names = [e.name for e in o.effects if e.name in OS_RANDOM or e.name == "custom_key" or "random" in e.name or "urandom" in e.name]
-            want = ["custom_key"] if variant == "custom" else None
-            if variant == "default":
+            want = ["custom_key"] if variant.startswith("custom") else None
+            if variant.startswith("default"):
                 ok = len(names) == 1 and names[0] in OS_RANDOM
             else:
                 ok = names == want
             ctx.ob(f"_core:WebSocket.send:{variant}-key-source:{o.kind}", ok,
-                   f"key drawn from {names}" + ("" if ok else (" -- default must be one draw from the OS source" if variant == "default" else " -- the configured source must be used, once")),
+                   f"key drawn from {names}" + ("" if ok else (" -- default must be one draw from the OS source" if variant.startswith("default") else " -- the configured source must be used, once") + (" (trace logging on: tracing must not draw or change the key)" if "trace" in variant else "")),
                    o.effects[0].loc if o.effects else "", {"path": path_text(o)})
 
 
